@@ -167,6 +167,15 @@ def run_shard(shard):
             both(s, "snippet")
             for _ in range(shard.get("relayouts", 4)):
                 both(relayout(rnd, s), "snippet-layout")
+        # tokenizer IndentationError (dedent to no enclosing level) under every kind of indentation unit: offsets are character
+        # columns, not tab-expanded widths
+        units = [" ", "  ", "    ", "\t", "\t\t", " \t", "\t ", "\f ", "        ", "\t    "]
+        for u1 in units:
+            for u2 in units:
+                if u1 != u2:
+                    for s in (f"if x:\n{u1}{u2}y\n{u2 if len(u2) < len(u1 + u2) else u1}z\n", f"if x:\n{u1}{u1}y\n{u2}z\n", f"def f():\n{u1}if a:\n{u1}{u2}{u2}b\n{u1}{u2}c\n"):
+                        both(s, "indent-family")
+                        both("x = 1\n" + s + "w = 2\n", "indent-family")
         for s in gen_xonsh.UNTERMINATED:
             for v in (s, s + "\n", "x = 1\n" + s, s + "\nx = 1\n", "\n\n" + s + "\n   "):
                 both(v, "unterminated")
